@@ -142,6 +142,7 @@ func (a *Act) instr(st *State, ins ssa.Instruction) {
 		c := a.u.D.Fresh("clo_"+fn.Name(), "Int")
 		a.u.Fact(not(eq(c, "0")))
 		a.vals[x] = Val{T: c, Fn: fn, Env: env, Typ: x.Type()}
+		a.closureCreated(st, x, fn, env)
 	case *ssa.MakeMap:
 		mt := x.Type().Underlying().(*types.Map)
 		r := st.newRef()
